@@ -24,7 +24,7 @@ theorem writes_flag_complete :
     ∀ ep : Epoch, ∀ f ∈ table ep,
       (execWrites f.execFn || f.execFn == .opCreate || gasTouchesState f.gasFn) = true → f.writes = true := by
   intro ep f hf h
-  have h7 := (opOK_split (List.all_eq_true.mp (table_ok ep) f hf)).2.2.2.2.2.2
+  have h7 := (opOK_split (List.all_eq_true.mp (table_ok ep) f hf)).2.2.2.2.2.2.1
   simpa [h] using h7
 
 example : ∃ f ∈ table .spring, (execWrites f.execFn || f.execFn == .opCreate || gasTouchesState f.gasFn) = true ∧ f.op = 0x55 := by decide
@@ -38,13 +38,17 @@ theorem memory_resizing_ops_charge_memory :
 
 example : ∃ f ∈ table .byzantium, f.memFn ≠ .none ∧ f.op = 0x3e := by decide
 
-/-- part of `no_modelled_panic_partial`: the memory-size and gas functions read `stack.Back(k)` only for k below the height
-    validateStack guarantees (`pops`), so the index expression `st.data[st.len()-n-1]` is in range -/
+/-- part of `no_modelled_panic_partial`: the memory-size functions, the gas functions and the bodies of the execute functions
+    (pop / peek / dup / swap depth, transcribed in `execReads`) access the stack only below the height validateStack
+    guarantees (`pops`), so `st.data[st.len()-n-1]` and `pop()` are in range for every opcode of every instruction set -/
 theorem stack_reads_within_validated_height :
-    ∀ ep : Epoch, ∀ f ∈ table ep, memFnReads f.memFn ≤ f.pops ∧ gasFnReads f.gasFn ≤ f.pops := by
+    ∀ ep : Epoch, ∀ f ∈ table ep, memFnReads f.memFn ≤ f.pops ∧ gasFnReads f.gasFn ≤ f.pops ∧ execReads f ≤ f.pops := by
   intro ep f hf
-  have h6 := (opOK_split (List.all_eq_true.mp (table_ok ep) f hf)).2.2.2.2.2.1
-  simpa using h6
+  have h := opOK_split (List.all_eq_true.mp (table_ok ep) f hf)
+  have h6 := h.2.2.2.2.2.1
+  have h8 := h.2.2.2.2.2.2.2
+  simp only [Bool.and_eq_true, decide_eq_true_eq] at h6
+  exact ⟨h6.1, h6.2, h8⟩
 
 set_option maxRecDepth 4096 in
 example : ∃ f ∈ table .homestead, memFnReads f.memFn = 7 ∧ f.pops = 7 := by decide
